@@ -310,7 +310,7 @@ class Node:
         with_clones: Optional[bool] = None,
     ) -> None:
         """Change node's `data` and/or `data_id` and update bookkeeping."""
-        if not data and not data_id:
+        if data is None and data_id is None:
             raise ValueError("Missing data or data_id")
 
         tree = self._tree
@@ -336,7 +336,7 @@ class Node:
                 "set_data() for clones requires `with_clones` decision"
             )
 
-        if new_data_id:
+        if new_data_id is not None:
             # Check this before anything is modified
             for n in cur_nodes if has_clones and with_clones else (self,):
                 for sibling in n._parent._children:  # type: ignore
@@ -357,7 +357,7 @@ class Node:
                         node_map[new_data_id] = prev_clones
                     for n in prev_clones:
                         n._data_id = new_data_id
-                        if new_data:
+                        if new_data is not None:
                             n._data = new_data
                 else:
                     # Move this one node to another slot in the map
@@ -368,7 +368,7 @@ class Node:
                     except KeyError:  # now a singleton with a new data_id
                         node_map[new_data_id] = [self]
                     self._data_id = new_data_id
-                    if new_data:
+                    if new_data is not None:
                         self._data = new_data
             else:
                 # data_id (and possibly data) changed for a *single* node
@@ -378,9 +378,9 @@ class Node:
                 except KeyError:  # still a singleton, just a new data_id
                     node_map[new_data_id] = [self]
                 self._data_id = new_data_id
-                if new_data:
+                if new_data is not None:
                     self._data = new_data
-        elif new_data:
+        elif new_data is not None:
             # `data` changed, but `data_id` remains the same:
             # simply replace the reference
             if with_clones:
